@@ -220,6 +220,7 @@ func permutations(ks []hist.Key, fn func([]hist.Key)) {
 }
 
 func runPool(c *mc.Ctx, r *mc.Result, name string, p *hist.Pool, maxLive, permMax, maxStates int) {
+	fullCompare := 12000
 	ops := p.Ops(false)
 	probes := probesFor(p)
 	r.Bounds["graph."+name] = fmt.Sprintf("BFS over methods %v patterns %v (%d ops), states with <=%d routes expanded; %d probes x 3 option profiles; all insertion permutations of sets <=%d", p.Methods, p.Patterns, len(ops), maxLive, len(probes), permMax)
@@ -259,6 +260,17 @@ func runPool(c *mc.Ctx, r *mc.Result, name string, p *hist.Pool, maxLive, permMa
 			defer wg.Done()
 			for i := range ch {
 				st := g.States[i]
+				// beyond the first fullCompare states (BFS order) the probes are only run when the tree dump
+				// differs from the canonical router's: equal dumps route identically (merging argument)
+				if i >= fullCompare {
+					c0 := canonical(st.Model, sortedKeys(st.Model), nil)
+					if hist.ShapeDigest(c0) == st.Shape {
+						mu.Lock()
+						r.Count(name+".states_equal_to_canonical_dump", 1)
+						mu.Unlock()
+						continue
+					}
+				}
 				for prof := range profiles {
 					if time.Now().After(compareDeadline) {
 						continue
